@@ -1,6 +1,6 @@
 """C04 - run verdict and stop control are consistent with the outcomes reported.
 Input : [shape, history, prog]     prog = none | [some [failfast-flag, [kind ...]]]  (a module of real test cases run by testtools.run)
-Trace : [ff0, leafFF, obs, texts, exit]   obs = per call [wasSuccessful, shouldStop, failfast|none, [leaf shouldStop ...]] of the object
+Trace : [ff0, leafFF, obs, texts, exit]   obs = per call [wasSuccessful, shouldStop, failfast|none, [leaf shouldStop ...], [leaf failfast ...]] of the object
         reported to; texts = parsed output of every TextTestResult leaf; exit = [status, parsed output] of testtools.run
 (formats: harness/props/res_common.py, lean/TTV/Drv/Res.lean, lean/TTV/Drv/C04.lean)
 """
@@ -96,11 +96,12 @@ class C04(Prop):
                 'ThreadsafeForwardingResult, MultiTestResult over TestResult / TextTestResult leaves and all call histories: wasSuccessful() '
                 'is false exactly when an error, failure or unexpected success was reported since the last startTestRun; every '
                 'TextTestResult writes banner, one section per problem, the number of tests started and OK / FAILED(k) in agreement with it; '
-                'with failfast reading true the first bad outcome sets shouldStop, which then stays set until startTestRun, and is never set earlier (only after stop() or a bad outcome with failfast set somewhere); stop() on any node reaches every result below it; wrapping leaves the failfast of every result alone (D14); exit '
+                'with failfast reading true the first bad outcome sets shouldStop, which then stays set until startTestRun, and is never set earlier (only after stop() or a bad outcome with failfast set somewhere); stop() on any node reaches every result below it; wrapping - and every startTestRun on any wrapper - leaves the failfast of every result alone (D14), and each result by itself '
+                'stops exactly by its own setting (or by a fail-fast decorator above it); exit '
                 'status and summary of testtools.run for a module of test cases with and without -f.  The hand-written model is tied to '
                 'the code by a differential check (random + bounded-exhaustive graphs x histories, TestProgram run in process).',
         'note': 'partial: everything through ExtendedToStreamDecorator + StreamFailFast is validated by the correspondence only (no theorem); the '
-                'text-summary theorem excludes TextTestResult behind ThreadsafeForwardingResult; known findings tfrOwnFailfastDirect (D15) and nestedMultiFailfast (residue of D14) are excluded; '
+                'text-summary theorem excludes TextTestResult behind ThreadsafeForwardingResult; the known finding tfrOwnFailfastDirect (D15) is excluded; '
                 'TextTestResult output is parsed, not modelled character by character; trusted: Lean kernel, model, harness',
         'technique': 'Lean 4 proofs by induction on the adapter tree (generic leaf-action theorem, frame lemma for failfast) and on the call '
                      'history; executable spec shared with a differential correspondence check',
@@ -110,7 +111,7 @@ class C04(Prop):
     def observe(self, g):
         ff = getattr(g.root, 'failfast', None)
         return [bool(g.root.wasSuccessful()), bool(g.root.shouldStop), None if ff is None else some(bool(ff)),
-                [bool(l.shouldStop) for l in g.leaves]]
+                [bool(l.shouldStop) for l in g.leaves], [bool(l.failfast) for l in g.leaves]]
 
     def run_prog(self, ff, kinds):
         from testtools.run import TestProgram
@@ -149,7 +150,7 @@ class C04(Prop):
 
     # ----- generators
     def gen_hist(self, rng, shape, kinds):
-        can_ff = shape[0] not in ('deco', 'tagger')
+        can_ff = shape[0] not in ('deco', 'tagger') and rng.random() < 0.5     # half of the histories never assign failfast
         h = []
 
         def noise(p):
@@ -197,7 +198,16 @@ class C04(Prop):
         inner = ('etod', 'deco', 'tagger', 'tfr', 'tfr', 'multi', 'multi', 'multi', 'e2s')
         leaves = ('tt', 'tt', 'text')
         d = rng.choice([0, 1, 1, 2, 2, 2, 3, 3])
-        shape = R.gen_shape(rng, d, leaves=leaves, inner=inner, ff=rng.random() < 0.6)
+        shape = R.gen_shape(rng, d, leaves=leaves, inner=inner, ff=rng.random() < 0.7)
+        if rng.random() < 0.15:
+            # a multiplexer over results with different failfast settings, the failfast one usually not first
+            def leaf(ff):
+                l = [rng.choice(['tt', 'tt', 'text']), ff]
+                return rng.choice([l, l, ['tfr', ['etod', l]], ['deco', l], ['multi', ['etod', l]]])
+            flags = [rng.random() < 0.25] + [rng.random() < 0.6 for _ in range(rng.choice([1, 1, 2]))]
+            shape = ['multi'] + [['etod', leaf(f)] for f in flags]
+            if rng.random() < 0.4:
+                shape = [rng.choice(['etod', 'deco']), shape] if rng.random() < 0.7 else ['multi', ['etod', shape], ['etod', ['tt', False]]]
         kinds = R.kinds_in(shape)
         prog = None
         if rng.random() < 0.3:
@@ -208,7 +218,8 @@ class C04(Prop):
         T, F = ['tt', True], ['tt', False]
         shapes = [F, T, ['text', False], ['text', True], ['etod', F], ['tfr', ['etod', F]], ['tfr', ['etod', T]],
                   ['multi', ['etod', F], ['etod', T]], ['multi', ['etod', ['text', False]], ['etod', ['tfr', ['etod', F]]]],
-                  ['deco', ['etod', T]], ['e2s', ['etod', F]], ['etod', ['multi', ['etod', T], ['etod', F]]]]
+                  ['deco', ['etod', T]], ['e2s', ['etod', F]], ['etod', ['multi', ['etod', T], ['etod', F]]],
+                  ['multi', ['etod', T], ['etod', F]], ['multi', ['etod', F], ['etod', ['multi', ['etod', F], ['etod', T]]]]]
         outs = [(k, None if k in ('success', 'uxsuccess') else ['reason', [114]] if k == 'skip' else ['exc', 'real']) for k in R.KINDS]
         for s in shapes:
             can_ff = s[0] not in ('deco', 'tagger')
@@ -239,7 +250,14 @@ class C04(Prop):
         f = ['depth=%d' % R.depth(shape), 'calls=%s' % (len(hist) // 5 * 5), 'tests=%d' % len([c for c in hist if c[0] == 'add']),
              'runs=%d' % len([c for c in hist if c[0] == 'startTestRun']), 'root:' + shape[0]]
         f += ['node:' + k for k in sorted(set(kinds))]
-        f.append('leaf-failfast:' + ('some' if "'tt', True" in str(shape) or "'text', True" in str(shape) else 'none'))
+        params = [x[1] for x in self.leaf_shapes(shape)]
+        f.append('leaf-failfast:' + ('none' if not any(params) else 'all' if all(params) else 'mixed-first' if params[0] else 'mixed-not-first'))
+        if not any(c[0] == 'setFailfast' for c in hist):
+            f.append('no-assign')
+            runs = [i for i, c in enumerate(hist) if c[0] == 'startTestRun']
+            bads = [i for i, c in enumerate(hist) if c[0] == 'add' and c[1] in BAD]
+            if any(params) and not all(params) and runs and bads and runs[0] < bads[-1]:
+                f.append('no-assign+mixed+run-before-bad')
         for c in hist:
             if c[0] == 'add':
                 f.append('kind:' + c[1])
@@ -253,6 +271,11 @@ class C04(Prop):
             f.append('stopped' if any(o[1] for o in trace[2]) else 'never-stopped')
             f.append('unsuccessful' if any(not o[0] for o in trace[2]) else 'always-successful')
         return sorted(set(f))
+
+    def leaf_shapes(self, s):
+        if s[0] in ('tt', 'text'):
+            return [s]
+        return [l for c in R.children(s) for l in self.leaf_shapes(c)]
 
     def shrink(self, inp):
         shape, hist, prog = inp
